@@ -13,4 +13,7 @@ package typescript
 //@   props C09
 //@   requires t != nil && (forall i int :: 0 <= i && i < len(t.Fields) ==> t.Fields[i].Field != nil)
 //@   modifies *
+//@   -- the key of an emitted property is the key encoding/json uses, unchanged
+//@   callverb fmt.Sprintf "%*: unknown," field.JSONName()
+//@   callverb fmt.Sprintf "%*: %s," field.JSONName()
 //@   loop t.Fields.1 endassert !field.Exported() ==> fields == athead(fields) && decls == athead(decls)
